@@ -357,7 +357,7 @@ def run(m, chk):
         "define them and asks both for the same size (PAIR); the literal seeds satisfy length / sum / symmetry / moment equations against closed forms coded in the checker (SEED); Integrate.* do not modify the curve "
         "and depend on all their inputs. Exactness order of the *computed* rules, the closed-form spline integral and polyline length are not decided."
     )
-    chk.decides = ["PURE-MEMO", "PAIR (family and size)", "SEED", "PURE", "DEP-MAY", 'MEMO-KEY (no value-keyed memoisation)', 'DEFAULT-OPEN (the default rule has no node at a span end)', 'JACOBIAN (span sums are multiplied by the span length)', 'PIECEWISE-EVAL (with a closed rule on offer, each span evaluates its own piece)']
+    chk.decides = ["PURE-MEMO", "PAIR (family and size)", "SEED", "PURE", "DEP-MAY", 'MEMO-KEY (no value-keyed memoisation)', 'DEFAULT-OPEN (the default rule has no node at a span end)', 'JACOBIAN (span sums are multiplied by the span length)', 'PIECEWISE-EVAL (with a closed rule on offer, each span evaluates its own piece)', 'PRECOND-LB (sizes the library chooses satisfy the asserted minimum of every rule they can reach)']
     chk.not_decided = ["exactness order of the computed rules for every n (Linalg.invert)", "Integrate.scalar equals the closed form", "polyline length"]
     chk.assume("numpy.polynomial.legendre.leggauss is deterministic")
     tabs, acc = pure_memo(r, chk)
@@ -371,6 +371,9 @@ def run(m, chk):
 
     jacobian(r, chk, ["calculus.Integrate.scalar", "calculus.Integrate.density", "calculus.Integrate.function"])
     piecewise_eval(r, chk, ["calculus.Integrate.scalar", "calculus.Integrate.density"])
+    from .extra import precond_lb
+
+    precond_lb(r, chk, ["calculus.Integrate.scalar", "calculus.Integrate.density", "calculus.Integrate.function", "heavy.LeastSquare.func2func"])
     for q, params in (("calculus.Integrate.scalar", ["curve"]), ("calculus.Integrate.density", ["curve"]), ("calculus.Integrate.lenght", ["curve"]), ("calculus.Integrate.function", ["knotvector"])):
         r.pure("PURE", q, params)
     for q, need in (("calculus.Integrate.scalar", ["curve.knotvector", "curve.ctrlpoints", "curve.weights", "function", "method", "nnodes"]), ("calculus.Integrate.density", ["curve.knotvector", "curve.ctrlpoints", "curve.weights", "function", "method", "nnodes"]), ("calculus.Integrate.function", ["knotvector", "function", "method", "nnodes"])):
